@@ -324,17 +324,17 @@ class Memory():
     def write(self, memory, addr, data, flush_queue=False, progress_cb=None):
         """Write the specified data to the given memory at the given address"""
         wreq = _WriteRequest(memory, addr, data, self.cf, progress_cb)
-        if memory.id not in self._write_requests:
-            self._write_requests[memory.id] = []
 
         # Workaround until we secure the uplink and change messages for
         # mems to non-blocking
         self._write_requests_lock.acquire()
+        # Use one reference to the queue, the table of queues is replaced
+        # when the Crazyflie is disconnected
+        requests = self._write_requests.setdefault(memory.id, [])
         if flush_queue:
-            self._write_requests[memory.id] = self._write_requests[
-                memory.id][:1]
-        self._write_requests[memory.id].append(wreq)
-        if len(self._write_requests[memory.id]) == 1:
+            del requests[1:]
+        requests.append(wreq)
+        if len(requests) == 1:
             wreq.start()
         self._write_requests_lock.release()
 
